@@ -9,6 +9,7 @@ package main
 
 import (
 	"fmt"
+	"time"
 
 	"verifharness/internal/groups"
 	"verifharness/internal/kc"
@@ -43,9 +44,13 @@ func runC05(c *kc.Ctx) {
 			src := pointSource(g, rng)
 			cp := groupCaps(g)
 			for i := 0; i < nProg; i++ {
+				dgen := c.Watch(90*time.Second, g.Name+":pick/embed/hash", g.Name+": generating input points through Pick/Embed/Hash", map[string]string{"group": g.Name, "seed": fmt.Sprint(c.Seed), "program_index": fmt.Sprint(i)}, "proof")
 				p := genProgX(rng.Fork(fmt.Sprint(i)), f.q, plen, src, cp.base, true, true)
+				dgen()
+				done := c.Watch(90*time.Second, g.Name, g.Name+" program "+p.String(), map[string]string{"group": g.Name, "program": p.String()}, "proof")
 				afinal, asteps, retMis := runAliased(g, p)
 				ffinal, fsteps := runProg(g, p, false, true)
+				done()
 				c.Eval(1)
 				c.Program(1)
 				c.CountKind("prog:" + g.Name)
